@@ -202,6 +202,35 @@ def marker_scenarios(w: ColExprWorld):
         out.append(("wrap_literals", desc, got == want,
                     f"wrap_literals on an expression with a {desc}: {got}; documented: {want} (a marker nested inside a column function is rejected "
                     "when the expression is built, not when it is exported)"))  # fmt: skip
+    # the same rule at construction time: the constructors of function and cast nodes reject a marker among their operands
+    from .interp import Native
+
+    ColFn, Cast = w.env["ColFn"], w.env["Cast"]
+
+    def mk_op(marker):
+        o = op(marker)
+        o.attrs.update({"return_type": Native(lambda arg_types: w.I, "op.return_type"), "context_kwargs": [], "name": "descending" if marker else "add"})
+        return o
+
+    def marker_expr():
+        e = fn(True, [col])
+        e.attrs["op"] = mk_op(True)
+        return e
+
+    for desc, build, want in (
+        ("function of a marker expression: `t.a.descending() + 1`", lambda: p.call(ColFn, [mk_op(False), marker_expr(), w.const(w.I)]), "TypeError"),
+        ("marker of a marker: `t.a.descending().nulls_last()`", lambda: p.call(ColFn, [mk_op(True), marker_expr()]), "ok"),
+        ("function of plain operands", lambda: p.call(ColFn, [mk_op(False), col, w.const(w.I)]), "ok"),
+        ("cast of a marker expression: `t.a.descending().cast(..)`", lambda: p.call(Cast, [marker_expr(), DT("Float64")]), "TypeError"),
+    ):
+        try:
+            r = build()
+            got = "ok" if isinstance(r, Obj) else repr(r)
+        except PyRaise as ex:
+            got = ex.name
+        out.append(("wrap_literals", "constructor: " + desc, got == want,
+                    f"building a {desc} gives {got}; documented: {want} (markers are only accepted at the top of an expression, and the misuse is "
+                    "reported when the expression is built)"))  # fmt: skip
     return out
 
 
